@@ -1157,11 +1157,12 @@ macro "fsimp" : tactic =>
       List.all_cons, List.all_nil, beq_self_eq_true, Bool.and_self, Bool.and_true, if_true, if_false, reduceIte, reduceCtorEq,
       Nat.reduceEqDiff, Nat.succ_ne_self, Bool.or_eq_true, Bool.and_eq_true, decide_eq_true_eq, Bool.not_eq_true',
       decide_eq_false_iff_not, Bool.true_eq_false, Bool.false_eq_true, decide_true, decide_false, Nat.add_zero, Nat.le_refl,
-      Nat.sub_self, List.replicate_zero, List.append_nil, List.nil_append, and_true, true_and, Nat.lt_irrefl, *])
+      Nat.sub_self, List.replicate_zero, List.append_nil, List.nil_append, and_true, true_and, Nat.lt_irrefl, false_or, or_false,
+      true_or, or_true, Option.ite_none_right_eq_some, Option.some.injEq, *])
 
 /-- one statement forward: the statement succeeds, the next state is computed -/
 macro "fstep" : tactic =>
   `(tactic| (apply wp_step
-             focus (first | (fsimp; done) | (fsimp; first | rfl | (refine ⟨?_, rfl⟩; first | assumption | omega | (simp [*]; done))))))
+             focus (fsimp; first | done | rfl | (apply And.intro; (first | assumption | omega | (simp [*]; done)); rfl))))
 
 end FShapes
